@@ -1,10 +1,111 @@
 import Ldap3V.Driver.Util
+import Ldap3V.Model.Filter
+import Ldap3V.Spec.Filter
 namespace Ldap3V.Driver
 open Ldap3V
+
+def showOutcome (o : Filter.Outcome) : String :=
+  match o with
+  | .ok t => "ok " ++ hexOf (encode t.toTlv)
+  | .reject => "reject"
+  | .panic => "panic"
+
+mutual
+/-- definite-length BER, low tag numbers, no depth limit (oracle side only: lber's own parser stops
+at depth 64, filters may nest deeper) -/
+partial def decTlv (i : Bytes) : Option (Tlv × Bytes) :=
+  match i with
+  | [] => none
+  | b :: i1 =>
+    match parseLen i1 with
+    | .ok len i2 =>
+      if i2.length < len then none
+      else
+        let content := i2.take len
+        let rest := i2.drop len
+        if (b.toNat / 32) % 2 == 1 then
+          match decKids content with
+          | some ks => some (.cons (b.toNat / 64) (b.toNat % 32) ks, rest)
+          | none => none
+        else some (.prim (b.toNat / 64) (b.toNat % 32) content, rest)
+    | _ => none
+partial def decKids (c : Bytes) : Option (List Tlv) :=
+  if c.isEmpty then some []
+  else match decTlv c with
+    | some (t, r) => (decKids r).map (t :: ·)
+    | none => none
+end
+
+/-- `spec.filter.print`: BER bytes → RFC 4511 filter (strict decoder) → canonical RFC 4515 string -/
+def specPrint (bs : Bytes) : String :=
+  match decTlv bs with
+  | some (t, []) =>
+    (match Spec.Filter.ofTlv t with
+     | some f => if Spec.Filter.wf f then hexOf (Spec.Filter.print f) else "undecodable"
+     | none => "undecodable")
+  | _ => "undecodable"
+
+/-- the alphabet of the exhaustive lane, in the lane's order:
+`( ) & | ! = * \ : ; . - ~ < > a d n 0 2 f` NUL 0xff -/
+def batchAlphabet : Array UInt8 :=
+  #[0x28, 0x29, 0x26, 0x7C, 0x21, 0x3D, 0x2A, 0x5C, 0x3A, 0x3B, 0x2E, 0x2D, 0x7E, 0x3C, 0x3E,
+    0x61, 0x64, 0x6E, 0x30, 0x32, 0x66, 0x00, 0xFF]
+
+def fnvStep (h : UInt64) (b : UInt8) : UInt64 := (h ^^^ b.toUInt64) * 0x100000001b3
+
+/-- the `idx`-th word of length `k` over the alphabet (most significant symbol first) -/
+def batchWord (k idx : Nat) : Bytes := Id.run do
+  let mut w : Bytes := []
+  let mut n := idx
+  for _ in [0:k] do
+    w := batchAlphabet[n % 23]! :: w
+    n := n / 23
+  return w
+
+/-- `filter.batch <prefix> <k>`: outcomes of `parse` on prefix ++ w for all words w of length k:
+one letter per word (k = ok, r = reject, p = panic) and the FNV-1a hash of the accepted BERs -/
+def filterBatch (pre : Bytes) (k : Nat) : String := Id.run do
+  let mut letters : Array Char := #[]
+  let mut h : UInt64 := 0xcbf29ce484222325
+  for idx in [0:23 ^ k] do
+    match Filter.parseO (pre ++ batchWord k idx) with
+    | .ok t =>
+      letters := letters.push 'k'
+      for b in encode t.toTlv do h := fnvStep h b
+      h := fnvStep h 0x0A
+    | .reject => letters := letters.push 'r'
+    | .panic => letters := letters.push 'p'
+  return String.ofList letters.toList ++ " " ++ toString h.toNat
+
+/-- `filter.batch3 <prefix>`: the 23 answers of `filter.batch (prefix ++ [a]) 2`, `a` over the
+alphabet, joined by `;` (evaluated as parallel tasks) -/
+def filterBatch3 (pre : Bytes) : String :=
+  let tasks := batchAlphabet.toList.map fun a => Task.spawn fun _ => filterBatch (pre ++ [a]) 2
+  ";".intercalate (tasks.map Task.get)
 
 /-- line-protocol handler for the `Filter` family of commands; `none` = not mine -/
 def handleFilter (cmd arg : String) : Option String :=
   match cmd with
+  | "filter.parse" => some (match unhex arg with
+      | some bs => showOutcome (Filter.parseO bs)
+      | none => "bad-request")
+  | "mv.parse" => some (match unhex arg with
+      | some bs => showOutcome (Filter.parseMvO bs)
+      | none => "bad-request")
+  | "spec.filter.print" => some (match unhex arg with
+      | some bs => specPrint bs
+      | none => "bad-request")
+  | "filter.batch" => some (match arg.splitOn " " with
+      | [h, k] => (match unhex h, k.toNat? with
+        | some bs, some k => if k ≤ 3 then filterBatch bs k else "bad-request"
+        | _, _ => "bad-request")
+      | _ => "bad-request")
+  | "filter.batch3" => some (match unhex arg with
+      | some bs => filterBatch3 bs
+      | none => "bad-request")
+  | "spec.filter.norm" => some (match unhex arg with
+      | some bs => hexOf (Spec.Filter.normTop bs)
+      | none => "bad-request")
   | _ => none
 
 end Ldap3V.Driver
